@@ -11,11 +11,20 @@ RULE = ("operation sequences on 1-3 sections of one output at terminal width 10:
         "<fg=red>..</>, a tag around two words, an unknown tag, an escaped '\\<', an escaped whole tag, a tag spanning a line break, "
         "texts whose raw length exceeds the width while the visible length does not / equals it / exceeds it too, an empty line "
         "between tagged lines, the empty text), section.indent(0|2|3|7|12) so that a raw text that fits no longer fits when indented "
-        "and an empty line is written under an indentation wider than the terminal, clear(), clear(1), clear(2); all sequences of the plain alphabet up to length 3 (quick) / 4 (thorough) after creating the sections, all "
-        "sequences of a tagged-and-indented alphabet up to length 3/4 (one section) and 3 (two sections), random ones up to length "
-        "40 over everything with sections created on the way, in ANSI and in plain mode; the emitted bytes (SGR sequences "
-        "included) are replayed on an independent terminal emulator; the class of the theorems (good markup) is decided on both "
-        "sides and compared; non-trivial = touches >= 2 sections or a wrapped line or a tag or an indentation; distinct by op sequence")
+        "and an empty line is written under an indentation wider than the terminal, clear(), clear(1), clear(2); all sequences of "
+        "the plain alphabet up to length 3 (quick) / 4 (thorough) after creating the sections, all sequences of a "
+        "tagged-and-indented alphabet up to length 3/4 (one section) and 3 (two sections); all sequences up to length 5 (quick) / 6 "
+        "(thorough) of an alphabet in which output.section() and output.indent(0|3) - the indentation of the OUTPUT the sections "
+        "belong to, which a section created afterwards starts with - are operations like the others (starting with no section at "
+        "all; write_line of 1 / 11 / 20 cells and of two lines, overwrite, clear(), clear(1), section.indent(2)); random ones up to "
+        "length 40 over everything (also 20 / 30-cell lines, 7 / 14 / 21, 80 / 160, lines of white space only, output.indent) with "
+        "sections created on the way, at widths {1, 7, 10, 80}, in ANSI and in plain mode; the emitted bytes (SGR sequences "
+        "included) are replayed on an independent terminal emulator that REJECTS what it does not model (ESC[2J is not 'erase "
+        "below'); the screen must show the stacked contents AND every cell in the look (SGR pen) of its own line, the pen left at "
+        "default; a run in which a call raises is compared up to the failing call; the class of the theorems (good markup) is "
+        "decided on both sides and compared; outside it the stack claim is dropped only where a partial clear really cut a tag that "
+        "spans a line break; non-trivial = touches >= 2 sections or a wrapped line or a tag or an indentation; distinct by op "
+        "sequence and width")
 TRUSTED = ["Base/Term.v as the terminal (infinite height, deferred auto-wrap, LF implies CR, an SGR sequence occupies no cell); "
            "tabs and wide characters in section texts are outside the model (a character is one cell); pastel is modelled by "
            "Model/Markup.v (tied by C11 and by this run)"]
